@@ -12,7 +12,7 @@ def make_mixed(ctx, count, length):
     scns = []
     for i in range(count):
         rng = G.rng_for(ctx.seed, "C19m", i)
-        cfg = G.rand_cfg(rng, mtu=rng.choice([576, 1500, 9216, rng.randint(576, 9216), rng.choice([68, 72, 100, 128, 200, 300])]))
+        cfg = G.rand_cfg(rng, mtu=rng.choice([576, 1500, 9216, rng.randint(576, 9216), rng.choice([68, 72, 100, 128, 200, 300]), rng.choice(G.MTUS_HUGE)]))
         net = G.Net(rng, cfg["mac"])
         glob = G.rand_global(rng, icon_size=rng.choice([0, 10, 2000, 30000, 32768, 32769, 40000, 70000]))
         if rng.random() < 0.3:
